@@ -523,7 +523,7 @@ func checkMain(args []string) int {
 			tracesOK++
 		} else {
 			tracesBad++
-			mismatch = append(mismatch, fmt.Sprintf("harness=%s model=%v engine=[%s] native=[%s] panic=%q assumeFailed=%v", t.t.Harness, t.t.Model, want, rr.obs, rr.panicMsg, rr.assumeFailed))
+			mismatch = append(mismatch, fmt.Sprintf("harness=%s model=%v engine=[%s] native=[%s] panic=%q assumeFailed=%v fs=%s", t.t.Harness, t.t.Model, want, rr.obs, rr.panicMsg, rr.assumeFailed, t.t.FSTrace))
 		}
 	}
 	for _, m := range mismatch {
@@ -980,6 +980,20 @@ func hookCloseFile(fp *os.File) error {
 }
 `
 	write(filepath.Join(gfDir, "file.go"), src)
+	// advisory flock: replays run the configuration in which it is unavailable (what go-file's own
+	// lock.go provides on platforms without flock): the control-file protocol has to stand alone
+	write(filepath.Join(gfDir, "lock_unix.go"), `//go:build darwin || dragonfly || freebsd || linux || netbsd || openbsd
+
+package file
+
+import "os"
+
+func LockSH(_ *os.File) error    { return nil }
+func LockEX(_ *os.File) error    { return nil }
+func TryLockSH(_ *os.File) error { return nil }
+func TryLockEX(_ *os.File) error { return nil }
+func Unlock(_ *os.File) error    { return nil }
+`)
 	// lib/file: stat, remove, rename, glob
 	files, _ := filepath.Glob(filepath.Join(repo, "lib", "file", "*.go"))
 	for _, f := range files {
